@@ -22,7 +22,7 @@ ASSUMPTIONS = ["dyadic cell bounds are exact in float64 (depth <= 6)",
                "VOGP_AD cannot run on a 1-D domain (known finding K2, reported under C06); d=1 run-level invariants are not observed"]
 N = {"quick": 32, "thorough": 900}
 REQUIRE = {"quick": {"direct_refines": 300, "max_depth_refusals": 100, "run_steps": 120, "run_refines": 40, "runs_terminated": 10,
-                     "pareto_declared_nodes": 5, "dims_1": 30, "dims_3": 30, "deep_ad_runs": 16, "gate_openings_seen_deep": 8}}
+                     "pareto_declared_nodes": 5, "dims_1": 30, "dims_3": 30, "deep_ad_runs": 16, "gate_openings_seen_deep": 8, "big_tree_nodes_audited": 15000}}
 TIMEOUT = {"quick": 1500, "thorough": 7200}
 
 
@@ -200,6 +200,59 @@ def direct_sequence(mon, rng):
         mon.sample({"d": d, "max_depth": max_depth, "n_points": len(ds.points), "cells_head": ds.cells[:5]})
 
 
+def big_tree(mon, rng, target):
+    """one tree grown to `target` (> 4096, > 8192) nodes by refining random leaves: every refinement is checked as usual and
+    the whole tree is audited at the end (capacity thresholds of the node arrays — seeded/W05)"""
+    from vopy.design_space import AdaptivelyDiscretizedDesignSpace
+
+    d = int(rng.integers(1, 4))
+    max_depth = {1: 16, 2: 9, 3: 6}[d]
+    m = 2
+    ds = AdaptivelyDiscretizedDesignSpace(d, m, delta=0.1, max_depth=max_depth)
+    tree = ShadowTree(d)
+    model = StubAD(rng, d, m)
+    ctx = {"d": d, "m": m, "max_depth": max_depth, "big_tree": True}
+    leaves = [0]
+    while len(ds.points) < target and leaves:
+        k = int(rng.integers(len(leaves)))
+        leaves[k], leaves[-1] = leaves[-1], leaves[k]
+        parent = leaves.pop()
+        if tree.depth[parent] >= max_depth:
+            continue
+        if rng.random() < 0.05:
+            ds.update(model, np.array(1.0), [parent])
+        before = snapshot_parent(ds, parent)
+        try:
+            new_idx = ds.refine_design(parent)
+        except Exception as e:
+            mon.violation(f"adaptive:refine-crash:{type(e).__name__}", repr(e), ctx)
+            return
+        nv = len(mon.violations)
+        check_refinement(mon, ds, tree, parent, new_idx, before, {**ctx, "parent": parent, "n_points": len(ds.points)})
+        mon.count("big_tree_refines")
+        if len(mon.violations) > nv:
+            return
+        leaves.extend(int(i) for i in new_idx)
+    # audit of the whole tree: nothing written earlier was disturbed later
+    n = len(ds.points)
+    mon.count("big_tree_nodes_audited", n)
+    mon.event(case_hash("bigtree", d, n), True, f"bigtree/d{d}")
+    if not check_arrays(mon, ds, "big tree audit", ctx):
+        return
+    P = np.asarray(ds.points, float)
+    C = np.array([[[float(iv[0]), float(iv[1])] for iv in tree.cell[i]] for i in range(n)])
+    if not np.array_equal(P, C.mean(axis=2)):
+        bad = np.nonzero((P != C.mean(axis=2)).any(axis=1))[0]
+        mon.violation("adaptive:point-not-centre-after-growth", f"{len(bad)} of {n} nodes no longer sit at their cell centre, first {bad[:5].tolist()}", ctx)
+    for i in range(n):
+        if [list(map(float, iv)) for iv in ds.cells[i]] != tree.cell[i] or ds.point_depths[i] != tree.depth[i]:
+            mon.violation("adaptive:node-entry-changed-later", f"node {i}: cell {ds.cells[i]} depth {ds.point_depths[i]}, recorded {tree.cell[i]} depth {tree.depth[i]}", ctx)
+            break
+    lv = [i for i in range(n) if i not in tree.children]
+    if sum(vol(tree.cell[i]) for i in lv) != 1.0:
+        mon.violation("adaptive:leaves-do-not-tile", f"big tree: leaf volumes sum to {sum(vol(tree.cell[i]) for i in lv)}", ctx)
+
+
 def vogp_ad_run(mon, rng, tier, deep=False):
     if deep:
         # a 1-D domain refined to depth 6-10 (cells down to 2^-10 wide) on the small exact numpy GP: depths the fitted
@@ -309,6 +362,8 @@ def vogp_ad_run(mon, rng, tier, deep=False):
 
 
 def shard(mon, tier, rng, shard_no, nshards):
+    if tier == "thorough" or shard_no % 4 == 0:
+        big_tree(mon, rng, 4500 if shard_no % 8 else 8800)
     n = max(2, N[tier] // nshards)
     for it in range(n):
         for _ in range(8):
